@@ -86,7 +86,8 @@ def gen_pipeline_case(rng, i):
     bscale = rng.choice([None, None, None, 0.5, 2.0, 4.0])
     return {'id': i, 'rows': rows, 'cols': cols, 'step': [sr, sc], 'box': [br, bcol], 'cores': cores, 'nslice': ns, 'mask': mask,
             'naxis': naxis, 'cube': [idx, depth], 'cube_index': (idx if (idx or rng.random() < 0.5) else None) if naxis > 2 else None,
-            'bscale': bscale, 'pixels': [[None if not np.isfinite(v) else int(v) for v in r] for r in arr]}
+            'bscale': bscale, 'write': rng.random() < 0.4,
+            'pixels': [[None if not np.isfinite(v) else int(v) for v in r] for r in arr]}
 
 
 def case_array(case):
@@ -97,8 +98,11 @@ def case_job(ctx, case, patch, tag):
     arr = case_array(case)
     p = os.path.join(ctx.work, f'{tag}_{case["id"]}.fits')
     bc.write_fits_case(p, arr, naxis=case.get('naxis', 2), bscale=case.get('bscale'), cube=tuple(case.get('cube', (0, 1))))
+    save = os.path.join(ctx.work, f'{tag}_{case["id"]}')
+    # write: the maps are ALSO written (out_base given); the returned maps and the files must both be the maps of the image
     return {'id': case['id'], 'path': p, 'step': case['step'], 'box': case['box'], 'cores': case['cores'], 'nslice': case['nslice'],
-            'mask': case['mask'], 'cube_index': case.get('cube_index'), 'patch': patch, 'save': os.path.join(ctx.work, f'{tag}_{case["id"]}')}
+            'mask': case['mask'], 'cube_index': case.get('cube_index'), 'patch': patch, 'save': save,
+            'out_base': save + '_out' if case.get('write') else None}
 
 
 def case_expr(case):
@@ -129,8 +133,8 @@ def run_jobs(ctx, jobs, tag, par=4):
 
 def case_public(case):
     d = {k: case[k] for k in ('rows', 'cols', 'step', 'box', 'cores', 'nslice', 'mask') if k in case}
-    for k in ('naxis', 'cube', 'cube_index', 'bscale'):
-        if case.get(k) is not None:
+    for k in ('naxis', 'cube', 'cube_index', 'bscale', 'write'):
+        if case.get(k) is not None and case.get(k) is not False:
             d[k] = case[k]
     return d
 
@@ -149,7 +153,7 @@ def pipeline_compare(ctx, cases, model_ok):
         ctx.notes.append(f'{len(exprs)} model evaluations (vm_compute) in {time.time() - t0:.1f}s')
         if vals is None:
             ctx.oblige('model evaluation (vm_compute) of Model.BaneFilter.run_maxrange', False, err)
-    nbad = nexact = nfar = 0
+    nbad = nexact = nfar = nfile = 0
     for k, (c, j) in enumerate(zip(cases, jobs)):
         r = res[c['id']]
         pub = case_public(c)
@@ -195,12 +199,21 @@ def pipeline_compare(ctx, cases, model_ok):
         ex = bc.weights_dyadic(c['rows'], c['cols'], c['step'], w)
         nexact += ex
         msg = bc.compare_map(mb, b, 'bkg', ex) or bc.compare_map(ms, s, 'rms', ex)
+        if not msg and j.get('out_base'):
+            nfile += 1
+            if not r.get('files'):
+                msg = f"out_base given but the map files were not written / not readable: {r.get('files_error')}"
+            else:
+                fb, fs = np.load(j['save'] + '_fbkg.npy'), np.load(j['save'] + '_frms.npy')
+                msg = bc.compare_map(mb, fb, 'bkg file', ex) or bc.compare_map(ms, fs, 'rms file', ex)
         if msg:
             nbad += 1
             if nbad <= 3:
                 ctx.mismatch('filter_image (statistic = (max, max-min)) differs from Model.BaneFilter', pub, impl=msg,
                              is_violation={**full, 'what': msg + ' [model of the unmodified code vs this implementation, '
                                                                  'BANE.sigmaclip replaced by (max, max-min)]'})
+    ctx.notes.append(f'{nfile} pipeline cases ran with out_base: returned maps AND the written _bkg/_rms files (read back with BSCALE applied) '
+                     f'compared with the model')
     ctx.notes.append(f'{nexact} of {len(cases)} pipeline cases compared exactly (all interpolation weights dyadic); mask rules at the '
                      f'stated radius box/2+grid checked on the same real runs: {nfar} far pixels are finite in both maps')
     return nbad, (vals is not None)
